@@ -1,3 +1,10 @@
 import LhasaV.Props.C19
 open LhasaV.Props.C19
 #print axioms no_filter_selects_all
+#print axioms listing_shape
+#print axioms row_independent
+#print axioms totals_exact
+#print axioms row_lines
+#print axioms timestamp_recent
+#print axioms timestamp_old
+#print axioms selection_spec
